@@ -1,4 +1,4 @@
-import HqModel.Props.Sys
+import HqModel.Props.SysW
 import HqModel.Lemmas.JobSteps
 /-!
 # C14 — max-fails: exceeding the limit aborts the rest of the job for good
